@@ -153,6 +153,18 @@ Definition c13_ok (fg : fgraph) (cached : list Z) (f : fdecl) (b : builder) (o :
       end
   end.
 
+(* "its converter list contains EVERY supplied converter": also two converters of
+   one Go type are two entries (only for the error raised at graph
+   construction, which carries the lists) *)
+Definition count_z (x : Z) (l : list Z) : nat := List.length (filter (Z.eqb x) l).
+Definition c13_convs_all (b : builder) (o : call_obs) : bool :=
+  match co_unsat o with
+  | Some (_, _, convs, full, _) =>
+      if full then forallb (fun c => Nat.leb (count_z (fn_type c) (map fn_type (b_convs b))) (count_z (fn_type c) convs)) (b_convs b)
+      else true
+  | None => true
+  end.
+
 (* ---------- putting it together per operation ---------- *)
 Inductive prop_id := P01 | P02 | P03 | P04 | P05 | P06 | P13 | PNone.
 
@@ -161,12 +173,13 @@ Definition monitor_call (p : prop_id) (u : universe) (earlier : list event) (f :
   let cached := flat_map (fun e => match e with EExec fid _ _ _ => [fid] | _ => [] end) earlier in
   match p with
   | PNone => 0
-  | P06 => if c06_ok o then 0 else 61
   | _ =>
     match build_args defaults opts with
-    | None => if co_ok o then 76 else 0   (* C16: a nil or failing option is an error result, whatever the target *)
+    | None => (* C16: a nil or failing option is an error result, whatever the target *)
+        if co_ok o then 76 else match p with P06 => if c06_ok o then 0 else 61 | _ => 0 end
     | Some b =>
         match p with
+        | P06 => if c06_ok o then 0 else 61
         | P01 => if c01_ok u f b earlier o then 0 else 56
         | P03 => if c03_ok u f b o then 0 else 58
         | P04 => if negb (c04_ok f o) then 59
@@ -177,7 +190,7 @@ Definition monitor_call (p : prop_id) (u : universe) (earlier : list event) (f :
                 match p with
                 | P02 => if c02_ok fg cached f o then 0 else 57
                 | P05 => if c05_ok fg [] o then 0 else 60
-                | P13 => if c13_ok fg [] f b o then 0 else 67
+                | P13 => if negb (c13_ok fg [] f b o) then 67 else if c13_convs_all b o then 0 else 78
                 | _ => 0
                 end
             | _ => 0
